@@ -1,0 +1,25 @@
+//go:build verif
+
+package hsms
+
+import "sync/atomic"
+
+// verifGate, when installed, is called at every named gate point. It is inert
+// (nil) unless a verification harness installs it, and it never changes
+// behaviour: a gate may only delay the calling goroutine.
+var verifGate atomic.Pointer[func(name string)]
+
+func vgate(name string) {
+	if f := verifGate.Load(); f != nil {
+		(*f)(name)
+	}
+}
+
+// VerifSetGate installs (or, with nil, removes) the process-wide gate function.
+func VerifSetGate(f func(name string)) {
+	if f == nil {
+		verifGate.Store(nil)
+		return
+	}
+	verifGate.Store(&f)
+}
